@@ -67,6 +67,9 @@ type Opts struct {
 	NestedMaps  bool // a pipeline containing mapped calls may itself be mapped
 	EmptyOuts   bool // stages may return empty collections
 	FreeNested  bool // no restriction on what is bound into pipelines that contain mapped calls
+	// DisabledHeavy: most calls carry a disabled modifier bound to a value
+	// only known at run time, through up to four levels of nesting
+	DisabledHeavy bool
 	NullOuts    bool // stages may return null for an output
 	Files       bool
 }
@@ -90,6 +93,15 @@ func TameNested() Opts {
 func WildNested() Opts {
 	o := DefaultOpts()
 	o.FreeNested = true
+	return o
+}
+
+// DisabledHeavy: run-time disabling everywhere, deep nesting, no nested maps.
+func DisabledHeavy() Opts {
+	o := DefaultOpts()
+	o.NestedMaps = false
+	o.DisabledHeavy = true
+	o.MaxDepth = 4
 	return o
 }
 
@@ -419,7 +431,7 @@ func (g *G) genStage(name string) *Stage {
 	for i, n := 0, 1+g.r.Intn(2); i < n; i++ {
 		s.Outs = append(s.Outs, Field{fmt.Sprintf("o%d", i), g.randType()})
 	}
-	if g.o.Disabled && g.r.Intn(4) == 0 {
+	if g.o.Disabled && (g.r.Intn(4) == 0 || (g.o.DisabledHeavy && g.r.Intn(3) != 0)) {
 		s.Outs = append(s.Outs, Field{"flag", TBool})
 	}
 	var chunkOut *Field
@@ -453,7 +465,11 @@ func (g *G) genStage(name string) *Stage {
 	}
 	for _, o := range s.Outs {
 		if o.Name == "flag" {
-			s.MainOuts[o.Name] = &SExp{K: "lit", Lit: hx.JBool(g.r.Bool())}
+			v := g.r.Bool()
+			if g.o.DisabledHeavy {
+				v = g.r.Intn(4) == 0 // mostly enabled, or hardly anything would run
+			}
+			s.MainOuts[o.Name] = &SExp{K: "lit", Lit: hx.JBool(v)}
 			continue
 		}
 		s.MainOuts[o.Name] = g.sexpFor(o.T, s.Ins, chunkOut, 0)
@@ -514,7 +530,7 @@ func (g *G) genPipeline(name string, callables []sig) (*Pipeline, sig) {
 	for i, n := 0, 1+g.r.Intn(3); i < n; i++ {
 		p.Ins = append(p.Ins, Field{fmt.Sprintf("p%d", i), g.randType()})
 	}
-	if g.o.Disabled && g.r.Intn(3) == 0 {
+	if g.o.Disabled && (g.r.Intn(3) == 0 || (g.o.DisabledHeavy && g.r.Intn(4) != 0)) {
 		p.Ins = append(p.Ins, Field{"off", TBool})
 	}
 	var srcs []src
@@ -626,12 +642,26 @@ func (g *G) genPipeline(name string, callables []sig) (*Pipeline, sig) {
 		if c.Mapped != "" {
 			g.Stats["map_call_"+c.Mapped]++
 		}
-		if g.o.Disabled && g.r.Intn(4) == 0 {
-			var bools []src
+		wantDisabled := g.o.Disabled && g.r.Intn(4) == 0
+		if g.o.DisabledHeavy {
+			if callee.IsStage {
+				wantDisabled = g.r.Bool()
+			} else {
+				wantDisabled = g.r.Intn(10) != 0
+			}
+		}
+		if wantDisabled {
+			var bools, flags []src
 			for _, s := range srcs {
 				if s.T.K == "bool" && len(s.E.Path) == 0 && !s.Nullable {
 					bools = append(bools, s)
+					if s.E.Src != "self" {
+						flags = append(flags, s)
+					}
 				}
+			}
+			if g.o.DisabledHeavy && len(flags) > 0 && g.r.Intn(4) != 0 {
+				bools = flags // a stage output: only known at run time
 			}
 			if len(bools) > 0 {
 				c.Disabled = hx.Pick(g.r, bools).E
